@@ -18,6 +18,7 @@ use std::{
     time::Duration,
 };
 
+pub mod atomic;
 pub mod ben;
 pub mod cache;
 pub mod facade;
